@@ -6,7 +6,7 @@ REQUIRED_THEOREMS = ["Sonic.Props.C08." + n for n in [
     "C08_u64_general", "C08_u64", "C08_i64_general", "C08_i64", "C08_extent_u64", "C08_extent_i64",
     "C08_decimal_canonical", "C08_decimal_value", "C08_decimal_length", "C08_decimal_toDigits",
     "C08_decimal_injective", "C08_i64_injective"]]
-CONFIGS = [("avx2", "prod"), ("sse", "prod"), ("avx2", "san")]
+CONFIGS = [("avx2", "prod"), ("sse", "prod"), ("avx2", "san"), ("dyn", "prod")]
 CONFIGS_THOROUGH = [("avx2", "prod"), ("sse", "prod"), ("dyn", "prod"), ("avx2", "san"), ("sse", "san")]
 RULE = ("values: 10^k-1, 10^k, 10^k+1 (k<=19), 2^k-1, 2^k, 2^k+1 (k<=64), range boundaries of U64toa's three paths, "
         "strided sweeps of each 8-digit group position, uniformly random values per decimal length; i64: the same "
